@@ -1255,6 +1255,68 @@ func c08Bound(r *engine.Run) int {
 	return 5
 }
 
+// ---- scenario "crc-collisions" ------------------------------------------------------------------------
+
+type c08ForgeCase struct {
+	Variant int `json:"variant"`
+}
+
+var c08ForgeMarker = []byte{0xF0, 0xF1, 0xF2, 0xF3}
+
+// c08ForgePair: two different well-formed sections of equal length classes whose CRC_32 fields hold the
+// same value (the four free bytes are the body of a foreign descriptor of B).
+func c08ForgePair(variant int) (a, b ref.S35Section, ok bool) {
+	seg := func(ev uint32, typ uint8) ref.S35Desc {
+		return c09SegD(ref.S35Seg{EventID: ev, Program: true, HasDuration: true, Duration: 2700000, UPIDType: 0x08, UPID: []byte{1, 2, 3, 4, 5, 6, 7, 8}, TypeID: typ, SegNum: 1, SegsExpected: 1})
+	}
+	free := ref.S35Desc{Tag: 0xF0, Identifier: 0x41424344, Body: append([]byte(nil), c08ForgeMarker...)}
+	a = ref.S35Canonical()
+	a.CmdType, a.Time = ref.S35CmdTime, ref.S35Time{Specified: true, PTS: 0x123456789}
+	a.Descs = []ref.S35Desc{seg(7, 0x34), {Tag: 0xF0, Identifier: 0x41424344, Body: []byte("wxyz")}}
+	b = a
+	switch variant {
+	case 0: // other time and event id, same layout
+		b.Time.PTS = 0x0FEDCBA98
+		b.Descs = []ref.S35Desc{seg(8, 0x34), free}
+	case 1: // other descriptor type and order
+		b.Descs = []ref.S35Desc{free, seg(7, 0x35)}
+	case 2: // another command
+		b.CmdType, b.Time = ref.S35CmdInsert, ref.S35Time{}
+		b.Insert = ref.S35Insert{EventID: 9, Out: true, Program: true, Immediate: true, UniqueProgramID: 1}
+		b.Descs = []ref.S35Desc{free}
+	case 3: // pts_adjustment only
+		b.PTSAdj = 1 << 32
+		b.Descs = []ref.S35Desc{seg(7, 0x34), free}
+	default:
+		return a, b, false
+	}
+	ab, bb := ref.S35Bytes(&a)[1:], ref.S35Bytes(&b)[1:]
+	off := bytes.Index(bb, c08ForgeMarker)
+	if off < 0 {
+		return a, b, false
+	}
+	if !ref.ForgeCRC(bb[:len(bb)-4], off, ref.CRC32MPEG2(ab[:len(ab)-4])) {
+		return a, b, false
+	}
+	copy(free.Body, bb[off:off+4])
+	nb := ref.S35Bytes(&b)[1:]
+	return a, b, bytes.Equal(nb[len(nb)-4:], ab[len(ab)-4:]) && !bytes.Equal(nb, ab)
+}
+
+func c08CheckForge(c c08ForgeCase) engine.Result {
+	var res engine.Result
+	a, b, ok := c08ForgePair(c.Variant)
+	if !ok {
+		res.Failf("harness|crc-forgery-failed", "variant %d", c.Variant)
+		return res
+	}
+	for _, sec := range []*ref.S35Section{&a, &b, &a, &b, &b, &a} {
+		c08CheckDecode(&res, sec, false)
+		res.Nontrivial++
+	}
+	return res
+}
+
 const c08TreeRule = "choice tree of one splice_info_section, choice 0 first: pointer_field {0,1,7,255}; cw_index {0,FF}; pts_adjustment {0,1,2^32,2^33-1}; tier {FFF,0,ABC}; " +
 	"command {time_signal pts {90000,0,2^32,2^33-1} | splice_null | splice_insert: event id {1,FFFFFFFF}, cancelled?, out?, program/component mode, immediate?, pts (4 values), " +
 	"component_count {1,0,2} each tag {i,FF} and (timed) time_specified? pts (4), duration_flag? auto_return? duration {2700000,0,2^32,2^33-1}, unique_program_id/avail_num/avails_expected {0,max}}; " +
@@ -1278,6 +1340,16 @@ func init() {
 					c08CheckDecode(&res, &sec, true)
 					return res
 				}, witnessSCTE),
+			},
+			&engine.Enum[c08ForgeCase]{
+				Name: "crc-collisions",
+				Rule: "4 pairs (A,B) of different well-formed sections whose CRC_32 fields hold the same 32-bit value (the body of a foreign descriptor of B is solved for over GF(2); B has another time and event id / another descriptor type and order / another command / another pts_adjustment): NewSCTE35 in the order A,B,A,B,B,A, each result judged as in decode-fields against the section actually passed in; one worker",
+				Gen: func(r *engine.Run, emit func(c08ForgeCase)) {
+					for v := 0; v < 4; v++ {
+						emit(c08ForgeCase{v})
+					}
+				},
+				Check: c08CheckForge, Batch: 8,
 			},
 			&engine.Enum[c08ProductCase]{
 				Name: "decode-descriptor-product",
